@@ -433,10 +433,11 @@ func (j *judgeCtx) checkConcurrency() {
 			continue
 		}
 		s := wd.subs[f.Sub]
-		t := s.Deq
-		if t == 0 || t > f.Seq {
-			t = s.AddInv
-		}
+		// The dispatch of a job begins when the dispatcher takes a concurrency slot
+		// for it, which is not observable and may precede the dequeue by any number
+		// of steps; the submission's invoke is the latest instant that is surely
+		// not later than that (weaker, but never wrong).
+		t := s.AddInv
 		cur = append(cur, fl{f.Sub, t})
 		oldest := f.Seq
 		for _, x := range cur {
@@ -703,10 +704,7 @@ func (j *judgeCtx) checkPause() {
 				for i, e := range s.Entries {
 					inflight := e <= c.Ret && (i >= len(s.Exits) || s.Exits[i] > c.Ret)
 					if inflight || (e > c.Ret && e < end) {
-						t := s.Deq
-						if t == 0 || t > e {
-							t = s.AddInv
-						}
+						t := s.AddInv
 						if t < oldest {
 							oldest = t
 						}
@@ -988,11 +986,7 @@ func (j *judgeCtx) oldestInflight(seq uint64) uint64 {
 		}
 		if f.Enter {
 			s := j.wd.subs[f.Sub]
-			t := s.Deq
-			if t == 0 || t > f.Seq {
-				t = s.AddInv
-			}
-			open[f.Sub] = t
+			open[f.Sub] = s.AddInv
 		} else {
 			delete(open, f.Sub)
 		}
